@@ -15,6 +15,11 @@ func checkC09(r *Run) {
 	ruleA18(r, p)
 	ruleA12Reset(r, p, "newEvent", "Event") // a recycled Event/Array starts empty: no value of a dropped event is carried into the next (C05's rule)
 	ruleA12Reset(r, p, "Arr", "Array")
+	ruleStringHeaderLen(r, p, "A18")
+	ruleTypeSwitchNoShadow(r, p, "A5") // Fields() reaches the tagged arms of net.IP / net.HardwareAddr
+	if w := p.Method("diode", "Writer", "Write"); w != nil {
+		ruleCopyBeforePublish(r, p, w) // a diode destination hands on exactly the event's bytes
+	}
 	ruleDurationArithmetic(r, p, "DUR") // durations: integer quotient / float quotient, never rounded through the other domain
 	ruleFloatWidth(r, p)                // floats: head byte, width and the three non-finite bit patterns
 	ruleA6(r, p, []string{cborRel})
